@@ -143,6 +143,29 @@ theorem perform_openTrunc_stale {s : State} (m : Mask) (h : s.refs = 0) :
     perform s (.openTrunc m) = (s, .st .stale) := by
   simp only [perform, if_pos h]
 
+/-- A mutating call on a file whose last reference is gone (`referenceCount = 0`) changes
+nothing and returns STALE: always for `O_TRUNC`, for the other calls in the current code. -/
+theorem perform_stale {s : State} (op : MutOp) (h : s.refs = 0)
+    (hc : s.checked = true ∨ ∃ m, op = .openTrunc m) :
+    (perform s op).1 = s ∧ ((perform s op).2 = .st .stale ∨ (perform s op).2 = .wrote 0 .stale) := by
+  cases op with
+  | openTrunc m => rw [perform_openTrunc_stale m h]; exact ⟨rfl, Or.inl rfl⟩
+  | write off data =>
+    rcases hc with hc | ⟨m, e⟩
+    · have e : perform s (.write off data) = (s, .wrote 0 .stale) := by simp only [perform, if_pos (And.intro hc h)]
+      rw [e]; exact ⟨rfl, Or.inr rfl⟩
+    · cases e
+  | alloc off len =>
+    rcases hc with hc | ⟨m, e⟩
+    · have e : perform s (.alloc off len) = (s, .st .stale) := by simp only [perform, if_pos (And.intro hc h)]
+      rw [e]; exact ⟨rfl, Or.inl rfl⟩
+    · cases e
+  | setattr n x =>
+    rcases hc with hc | ⟨m, e⟩
+    · have e : perform s (.setattr n x) = (s, .st .stale) := by simp only [perform, if_pos (And.intro hc h)]
+      rw [e]; exact ⟨rfl, Or.inl rfl⟩
+    · cases e
+
 structure ClosedFacts (s : State) : Prop where
   refs : s.refs = 0
   links : s.linkCount = 0
@@ -163,16 +186,40 @@ theorem Inv.closedFacts {s : State} (h : Inv s) (hc : s.closed = true) : ClosedF
   exact this.zero_all
 
 /-- What a call returns once the last reference is gone: `Link`/`VirtualOpenSelf` (with or
-without `O_TRUNC`) → `StatusErrStale`; upload / frozen open / output-service stat → NotFound. -/
+without `O_TRUNC`), `VirtualAllocate`, `VirtualSetAttributes` with a size → `StatusErrStale`,
+`VirtualWrite` → `(0, StatusErrStale)`; upload / frozen open / output-service stat → NotFound. -/
 def CleanFail : Op → Out → Prop
   | .link, o => o = .st .stale
   | .open_ _, o => o = .st .stale
-  | .mbegin _ _, o => o = .st .stale
-  | .mwake _, o => o = .st .stale
+  | .mbegin _ _, o => o = .st .stale ∨ o = .wrote 0 .stale
+  | .mwake _, o => o = .st .stale ∨ o = .wrote 0 .stale
   | .ubegin _ _ _ _, o => o = .st .notFound
   | .uwake _ _, o => o = .st .notFound
   | .statOpen _ _, o => o = .st .notFound
   | _, _ => True
+
+theorem closed_mutBody {s : State} (h : Inv s) (hc : s.closed = true) (cf : ClosedFacts s) (t : Nat)
+    (mop : MutOp) (hok : MutOk s mop) :
+    (mutBody s t mop).1.refs = 0 ∧ (mutBody s t mop).1.closed = true ∧
+    (mutBody s t mop).1.closeCalls = s.closeCalls ∧ (mutBody s t mop).1.bytes = s.bytes ∧
+    ((mutBody s t mop).2 = .st .stale ∨ (mutBody s t mop).2 = .wrote 0 .stale) := by
+  have hcase : s.checked = true ∨ ∃ m, mop = .openTrunc m := by
+    rcases hok with hck | ⟨hd, hsz⟩
+    · exact Or.inl hck
+    · cases mop with
+      | write off data => have := hd rfl; have := cf.rd; have := cf.wr; omega
+      | alloc off len => have := hd rfl; have := cf.rd; have := cf.wr; omega
+      | setattr n x =>
+        rcases hsz n x rfl with h1 | h1
+        · have := cf.rd; have := cf.wr; omega
+        · have := cf.links; omega
+      | openTrunc m => exact Or.inr ⟨m, rfl⟩
+  have hp := perform_stale mop cf.refs hcase
+  unfold mutBody
+  rw [if_neg (by have := cf.frozen; omega)]
+  simp only
+  rw [hp.1]
+  exact ⟨cf.refs, hc, rfl, rfl, hp.2⟩
 
 /-- Once the pool file has been closed, every step the caller contract allows leaves
 `referenceCount = 0`, does not call `Close` again, does not change the contents, and the
@@ -215,42 +262,19 @@ theorem closed_step {s s' : State} {o : Out} (op : Op) (h : Inv s) (hc : s.close
     · have e1 := some_pair_eq hs
       have e2 : (mutBody s t mop).2 = o := some_pair_eq2 hs
       rw [← e1, ← e2]
-      unfold mutBody
-      rw [if_neg (by have := cf.frozen; omega)]
-      cases mop with
-      | write off data => have := hlm.1 rfl; have := cf.rd; have := cf.wr; omega
-      | alloc off len => have := hlm.1 rfl; have := cf.rd; have := cf.wr; omega
-      | setattr n x =>
-        rcases hlm.2 n x rfl with h1 | h1
-        · have := cf.rd; have := cf.wr; omega
-        · have := cf.links; omega
-      | openTrunc m =>
-        rw [perform_openTrunc_stale m cf.refs]
-        exact ⟨cf.refs, hc, rfl, rfl, rfl⟩
+      exact closed_mutBody h hc cf t mop hlm
     · cases hs
   case mwake t =>
     split at hs
     · rename_i mop hpc
-      have hlm : (mop.needsDescriptor = true → 0 < s.rd + s.wr) ∧
-          (∀ n x, mop = .setattr n x → 0 < s.rd + s.wr ∨ 0 < s.linkCount) := by
+      have hlm : MutOk s mop := by
         apply legal_mut
         simp only [legal, hpc] at hl
         exact hl
       have e1 := some_pair_eq hs
       have e2 : (mutBody s t mop).2 = o := some_pair_eq2 hs
       rw [← e1, ← e2]
-      unfold mutBody
-      rw [if_neg (by have := cf.frozen; omega)]
-      cases mop with
-      | write off data => have := hlm.1 rfl; have := cf.rd; have := cf.wr; omega
-      | alloc off len => have := hlm.1 rfl; have := cf.rd; have := cf.wr; omega
-      | setattr n x =>
-        rcases hlm.2 n x rfl with h1 | h1
-        · have := cf.rd; have := cf.wr; omega
-        · have := cf.links; omega
-      | openTrunc m =>
-        rw [perform_openTrunc_stale m cf.refs]
-        exact ⟨cf.refs, hc, rfl, rfl, rfl⟩
+      exact closed_mutBody h hc cf t mop hlm
     · cases hs
   case ubegin t u k fn =>
     split at hs
